@@ -404,8 +404,8 @@ def size_of(design):
 
 def run_shard(ctx):
   import time
-  per_batch = 4 if ctx.tier == "quick" else 12
-  half = time.time() + 0.5 * max(0.0, ctx.deadline - time.time())     # part A may use half of the budget
+  per_batch = 4 if ctx.tier == "quick" else 8
+  half = time.time() + 0.4 * max(0.0, ctx.deadline - time.time())     # part A may start batches during the first 40% of the budget
 
   @seed(ctx.hseed())
   # (Hypothesis' first example is always the minimal one: at least 3 examples per shard)
